@@ -36,9 +36,10 @@ CONSTANTS Hosts,      \* subject hosts: integers > 1
           Ignored,    \* subject hosts the load-balancing policy puts at distance IGNORED
           MaxEvents,  \* how many environment events a behaviour may contain
           Env,        \* kinds of environment events explored: subset of {"fail","status","topo","mode","auth","ctl"}
-          Fixed       \* deviations repaired: subset of Deviations
+          Fixed,      \* deviations repaired: subset of Deviations
+          FineUp      \* TRUE: with two sessions Cluster.on_up is split between the two iterations of its submit loop
 
-Deviations == {"D1_late_pool", "D2_discount_pool", "D3_ctl_after_shutdown", "D4_recon_removed"}
+Deviations == {"D1_late_pool", "D2_discount_pool", "D3_ctl_after_shutdown", "D4_recon_removed", "D5_up_loop"}
 
 Ctl == 1
 AllHosts == Hosts \cup {Ctl}
@@ -90,6 +91,8 @@ TRemoveHost(h)    == T("RemoveHost", 0, h, "", FALSE, FALSE, 0)
 TRefreshIf        == T("RefreshIf", 0, 0, "", FALSE, FALSE, 0)   \* _refresh_nodes_if_not_up(None)
 TCtlReconnect     == T("CtlReconnect", 0, 0, "", FALSE, FALSE, 0)
 TCtlSet           == T("CtlSet", 0, 0, "", FALSE, FALSE, 0)      \* second half of _reconnect: _set_new_connection(conn)
+TOnUpCont(h, n, r) == T("OnUpCont", 0, h, "", r, FALSE, n)       \* rest of Cluster.on_up from its second add_or_renew_pool on (FineUp);
+                                                                 \* r = called by a reconnector, whose probe connection is still open
 
 EmptyBag == <<>>
 BagAdd(b, t) == IF t \in DOMAIN b THEN [b EXCEPT ![t] = @ + 1] ELSE b @@ (t :> 1)
@@ -183,8 +186,21 @@ OnUpE(st, h) ==
              n  == NewN(s3, h, "up")
              s4 == Fold(LAMBDA x, s : SessAdd(x, s, h, "up", n), s3, Sessions)
          IN IF HasFuture(h)
-            THEN [s4 EXCEPT !.grp = @ @@ (<<h, "up", n>> :> [left |-> Sessions, ok |-> TRUE])]
+            THEN [s4 EXCEPT !.grp = @ @@ (<<h, "up", n>> :> [left |-> Sessions, ok |-> TRUE, open |-> FALSE])]
             ELSE [SetUp(s4, h) EXCEPT !.handling[h] = FALSE]            \* no future: marked up without telling listeners
+
+(* FineUp: on_up up to the point where its loop is about to call add_or_renew_pool for the second session.  The first *)
+(* future is submitted, has its done-callback and is in `futures`; the group stays open until the rest has run.       *)
+Fine(h) == FineUp /\ Cardinality(Sessions) = 2 /\ HasFuture(h)
+OnUpProceeds(st, h) == ~(ClusterShut \/ st.handling[h] \/ st.up[h] = "T")
+OnUpFineE(st, h, rec) ==
+    LET s1 == Detach([st EXCEPT !.handling[h] = TRUE], h, TRUE)
+        s2 == Fold(LAMBDA x, s : RemovePool(x, s, h, FALSE), s1, Sessions)
+        s3 == LbpEmit(s2, "up", h)
+        n  == NewN(s3, h, "up")
+        s4 == SessAdd(s3, Min(Sessions), h, "up", n)
+    IN [s4 EXCEPT !.grp = @ @@ (<<h, "up", n>> :> [left |-> {Min(Sessions)}, ok |-> TRUE, open |-> TRUE]),
+                  !.exec = BagAdd(@, TOnUpCont(h, n, rec))]
 
 (* Cluster._finalize_add *)
 FinalizeAdd(st, h, setUp) == UpdAllPools(LsnEmit(IF setUp THEN SetUp(st, h) ELSE st, "add", h))
@@ -195,7 +211,7 @@ OnAddTail(st, h) ==
     ELSE LET n  == NewN(st, h, "add")
              s2 == Fold(LAMBDA x, s : SessAdd(x, s, h, "add", n), st, Sessions)
          IN IF HasFuture(h)
-            THEN [s2 EXCEPT !.grp = @ @@ (<<h, "add", n>> :> [left |-> Sessions, ok |-> TRUE])]
+            THEN [s2 EXCEPT !.grp = @ @@ (<<h, "add", n>> :> [left |-> Sessions, ok |-> TRUE, open |-> FALSE])]
             ELSE FinalizeAdd(s2, h, TRUE)
 (* Cluster.on_add(host, refresh_nodes=False), as called for a host found by a node-list refresh *)
 OnAddE(st, h) == IF ClusterShut THEN st ELSE OnAddTail(LbpEmit(st, "add", h), h)
@@ -234,7 +250,7 @@ Cleanup(st, h) ==
         s2 == Fold(LAMBDA x, s : RemovePool(x, s, h, FALSE), s1, Sessions)
     IN StartRecon(s2, h, FALSE)
 
-(* Cluster._on_up_future_completed once the last future is in *)
+(* Cluster._on_up_future_completed once the last future is in: the group is complete (or looks complete) *)
 OnUpFinish(st, h, ok) ==
     IF ok THEN UpdAllPools([LsnEmit(SetUp(st, h), "up", h) EXCEPT !.handling[h] = FALSE])
     ELSE [Cleanup(st, h) EXCEPT !.handling[h] = FALSE]
@@ -246,10 +262,27 @@ PoolDone(st, t, result) ==
              g == st.grp[key]
              left == g.left \ {t.s}
              ok == g.ok /\ result
-         IN IF left # {} THEN [st EXCEPT !.grp[key] = [left |-> left, ok |-> ok]]
+             upd == [st EXCEPT !.grp[key] = [left |-> left, ok |-> ok, open |-> g.open]]
+         IN IF left # {} THEN upd
+            ELSE IF g.open                                   \* on_up has not yet asked for the second session's pool
+                 THEN IF "D5_up_loop" \in Fixed THEN upd     \* repaired: callbacks are attached once `futures` is complete
+                      ELSE OnUpFinish(upd, t.h, ok)          \* `futures` is empty: handled as if every pool were there
             ELSE LET s1 == [st EXCEPT !.grp = [x \in DOMAIN @ \ {key} |-> @[x]]] IN
                  IF t.kind = "up" THEN OnUpFinish(s1, t.h, ok)
                  ELSE IF ok THEN FinalizeAdd(s1, t.h, TRUE) ELSE s1            \* on_add only logs a failure
+
+(* FineUp: the rest of on_up: second add_or_renew_pool, end of the loop [, rest of _ReconnectionHandler.run] *)
+RunOnUpCont(st, t) ==
+    LET h == t.h
+        key == <<h, "up", t.n>>
+        g == st.grp[key]
+        s1 == SessAdd(st, Max(Sessions), h, "up", t.n)
+        left == IF HasFuture(h) THEN g.left \cup {Max(Sessions)} ELSE g.left
+        drop(x) == [x EXCEPT !.grp = [y \in DOMAIN @ \ {key} |-> @[y]]]
+        s2 == IF left # {} THEN [s1 EXCEPT !.grp[key] = [left |-> left, ok |-> g.ok, open |-> FALSE]]
+              ELSE IF "D5_up_loop" \in Fixed THEN OnUpFinish(drop(s1), h, g.ok)      \* the only future was done already
+              ELSE drop(s1)                                                          \* ... and has been handled
+    IN IF t.f1 THEN Detach(s2, h, FALSE) ELSE s2
 
 (* run_add_or_renew_pool *)
 RunAddPool(st, t) ==
@@ -290,8 +323,9 @@ RunRecon(st, t) ==
     ELSE CASE mode[h] = "refuse" -> IF ClusterShut THEN st ELSE [st EXCEPT !.sched = BagAdd(@, t)]
            [] mode[h] = "auth"   -> [st EXCEPT !.authFailed[h] = TRUE]            \* gives up; stays the host's handler
            [] mode[h] = "ok"     ->
-                LET s1 == IF t.f2 THEN OnAddRefreshE(st, h) ELSE OnUpE(st, h)
-                IN Detach(s1, h, FALSE)                                       \* callback: get_and_set_reconnection_handler(None), no cancel
+                IF ~t.f2 /\ Fine(h) /\ OnUpProceeds(st, h) THEN OnUpFineE(st, h, TRUE)
+                ELSE LET s1 == IF t.f2 THEN OnAddRefreshE(st, h) ELSE OnUpE(st, h)
+                     IN Detach(s1, h, FALSE)                                  \* callback: get_and_set_reconnection_handler(None), no cancel
 
 (* ControlConnection._reconnect, first half: _reconnect_internal connects to host 1, registers, refreshes with the new connection *)
 RunCtlReconnect(st) ==
@@ -308,7 +342,8 @@ RunTask(st, t) ==
       [] t.k = "AddPool"      -> RunAddPool(st, t)
       [] t.k = "PoolShut"     -> RunPoolShut(st, t)
       [] t.k = "Recon"        -> RunRecon(st, t)
-      [] t.k = "OnUp"         -> OnUpE(st, t.h)
+      [] t.k = "OnUp"         -> IF Fine(t.h) /\ OnUpProceeds(st, t.h) THEN OnUpFineE(st, t.h, FALSE) ELSE OnUpE(st, t.h)
+      [] t.k = "OnUpCont"     -> RunOnUpCont(st, t)
       [] t.k = "RemoveHost"   -> IF st.known[t.h] /\ ~ClusterShut THEN Refresh(OnRemoveE(st, t.h))   \* ControlConnection.on_remove refreshes
                                  ELSE OnRemoveE(st, t.h)
       [] t.k = "RefreshIf"    -> Refresh(st)
@@ -465,7 +500,7 @@ Spec == Init /\ [][Next]_vars
 NOpenOf(c, cp, lk, pl, ex) ==
     (IF c = "open" THEN 1 ELSE 0) + (IF cp THEN 1 ELSE 0) + lk
     + Cardinality({<<s, h>> \in Sessions \X AllHosts : pl[s][h] = "open"})
-    + BagCount(ex, LAMBDA t : t.k = "PoolShut" /\ t.f1)
+    + BagCount(ex, LAMBDA t : (t.k = "PoolShut" /\ t.f1) \/ (t.k = "OnUpCont" /\ t.f1))
 NOpen == NOpenOf(ctl, ctlPend, leaked, pools, exec)       \* connections open right now
 
 TypeOK ==
